@@ -69,6 +69,11 @@ import (
 
 var keysB = []string{"ka", "kb", "Kc"}
 
+// undefB are names no source ever defines: they differ only in CASE from the keys and from the
+// Go field names (Fa, Fb, Kc) of the structs passed to Fill / View. Variable names are exact, so
+// every node must read them as undefined in every position and through Get.
+var undefB = []string{"fa", "KA", "kc", "fB"}
+
 const nPages = 3
 
 // Op is one step of a history.
@@ -158,6 +163,9 @@ func (c CaseB) body() string {
 			fmt.Fprintf(&b, `<b data-m="c-%s" data-t="%s" v-if="%s == '%s'">x</b>`, k, t, k, t)
 		}
 		b.WriteString("\n")
+	}
+	for _, n := range undefB {
+		fmt.Fprintf(&b, `<i data-m="u-%s">{{ %s }}</i><i data-m="ua-%s" :data-x="%s">x</i><b data-m="uc-%s" v-if="%s">x</b>`+"\n", n, n, n, n, n, n)
 	}
 	b.WriteString("</div>\n")
 	return b.String()
@@ -329,6 +337,9 @@ func observe(t vuego.Template, loaded bool, body string) obs {
 	for _, k := range keysB {
 		o.Get[k] = t.Get(k)
 	}
+	for _, n := range undefB {
+		o.Get[n] = t.Get(n)
+	}
 	var buf bytes.Buffer
 	var err error
 	if loaded {
@@ -347,8 +358,10 @@ func observe(t vuego.Template, loaded bool, body string) obs {
 	}
 	for _, m := range hx.Markers(nodes) {
 		switch {
-		case strings.HasPrefix(m.ID, "a-"):
+		case strings.HasPrefix(m.ID, "a-"), strings.HasPrefix(m.ID, "ua-"):
 			o.Marks[m.ID] = m.Attrs["data-x"]
+		case strings.HasPrefix(m.ID, "uc-"):
+			o.Marks[m.ID] = "rendered"
 		case strings.HasPrefix(m.ID, "c-"):
 			if o.Marks[m.ID] != "" {
 				o.Marks[m.ID] += ","
@@ -445,6 +458,18 @@ func checkB(c CaseB) error {
 			mn := m.nodes[ni]
 			if o.Err != "" {
 				return fmt.Errorf("%s: rendering node%d failed: %s\nhistory: %s", when, ni, o.Err, strings.Join(history, " | "))
+			}
+			for _, n := range undefB {
+				for _, p := range [][2]string{{"Get", o.Get[n]}, {"{{ " + n + " }}", o.Marks["u-"+n]}, {":data-x=" + n, o.Marks["ua-"+n]}} {
+					for _, k := range keysB {
+						if cands[k][p[1]] {
+							return fmt.Errorf("%s: node%d: %s gives %q, but no source defines %q (it only differs in case from a key / struct field name)\nhistory: %s", when, ni, p[0], p[1], n, strings.Join(history, " | "))
+						}
+					}
+				}
+				if o.Marks["uc-"+n] != "" {
+					return fmt.Errorf("%s: node%d: v-if=%q rendered, but no source defines that name\nhistory: %s", when, ni, n, strings.Join(history, " | "))
+				}
 			}
 			for _, k := range keysB {
 				want, st := m.resolve(mn, k)
